@@ -179,11 +179,23 @@ def main(tier, seed):
         plans = [dict(max_cmds=3, max_edits=1, creator=True)]
     # the dates are xsd:dateTime values in every zone: west of Greenwich with a half-hour offset, and UTC+14
     plans += [dict(max_cmds=2, max_edits=0, creator=False, tz=z) for z in ("America/St_Johns", "Pacific/Kiritimati")]
+    # histories another tool may have written (optional items missing, other legal date forms): what THIS tool writes next to
+    # them - and what it re-writes of them (the chain) - is valid
+    plans.append(dict(max_cmds=2, max_edits=0, creator=False, foreign=True))
     tot = {"states": 0, "transitions": 0}
     runs = []
     for pl in plans:
-        meta = dict(cmds=0, edits=0, **pl)
+        meta = dict(cmds=0, edits=0, **{k: v for k, v in pl.items() if k != "foreign"})
         inits = [(t, meta, "tree:" + n) for n, t in TREES.items()]
+        if pl.get("foreign"):
+            from mc import foreign
+            sealed = engine.scenarios(eng, lambda: {"s": ops.build(eng.local_ctx(), TREES["flat"], [ops.create("", ["md5"]), ops.create("", ["md5", "xxh64"])],
+                                                                   expect=[0, 0])})["s"]
+            inits = []
+            for var in foreign.VARIANTS if sealed is not None else ():
+                ft = foreign.rewrite(sealed, var)
+                if ft != sealed and foreign.valid(ft):
+                    inits.append((ft, meta, "foreign:" + var))
         r = engine.bfs(eng, expand, inits, max_depth=pl["max_cmds"] + pl["max_edits"], label=ops.label, state_cap=250000)
         runs.append(dict(pl, **r))
         tot["states"] += r["states"]
@@ -196,7 +208,8 @@ def main(tier, seed):
                    "sub-directory) interleaved with delete/alter/rename/add edits (exit 0/10/11) and flatten (first, repeated, "
                    "with creator options, -n); every *.mhl written is validated against xsd/ASCMHL.xsd and every chain / "
                    "collection file against xsd/ASCMHLDirectory__combined.xsd with lxml; a reduced matrix again in the zones "
-                   "America/St_Johns (UTC-3:30/-2:30) and Pacific/Kiritimati (UTC+14)"}
+                   "America/St_Johns (UTC-3:30/-2:30) and Pacific/Kiritimati (UTC+14), and starting from a flat history as another tool may have "
+                   "written it (no size / ignore / sequencenr / lastmodificationdate / hashdate, dates with Z or a fraction)"}
     eng.assumptions.append("the XSD files shipped in /repo/xsd are the specification; lxml/libxml2 XMLSchema is the validator")
     return eng.finish(cov, eval_case)
 
